@@ -1172,7 +1172,14 @@ def oracle(ctx, hints, effort):
         for fname in ("polder_van_santen", "maxwell_garnett"):
             for option in (None, "auto"):
                 evals += 1
-                r = check_dense_auto(density, fname, option)
+                try:
+                    r = check_dense_auto(density, fname, option)
+                except (AssertionError, Warning):
+                    r = None
+                except Exception as e:  # noqa
+                    from smrt.core.error import SMRTError
+                    r = None if isinstance(e, SMRTError) else ("emmodel.iba:works-on-other-medium", f"IBA({fname}, dense_snow_correction={option!r}) on snow of density "
+                                                               f"{density} raises {type(e).__name__}: {str(e)[:120]}", type(e).__name__, "a value")
                 if r:
                     findings.append(Finding(r[0], r[1], {"kind": "dense-auto", "density": density, "formula": fname, "option": option}, r[2], r[3]))
 
